@@ -283,7 +283,8 @@ impl crate::CascFormat for PatchArchive {
     fn build(&self) -> Result<Vec<u8>, Box<dyn std::error::Error>> {
         let mut builder = PatchArchiveBuilder::new()
             .version(self.header.version)
-            .block_size_bits(self.header.block_size_bits);
+            .block_size_bits(self.header.block_size_bits)
+            .plain_data(self.header.is_plain_data());
 
         if let Some(ref info) = self.encoding_info {
             builder = builder.encoding_info(info.clone());
